@@ -76,8 +76,13 @@ def extract():
     add = find_func(tree, "add_positions", cls="NonBondEngine")
     thresholds = _compare_constants(add, ast.Gt, lambda left: isinstance(left, ast.Attribute) and left.attr == "n")
     if len(thresholds) != 1:
-        raise TranslatorError("anchor not found: exactly one `<tree>.n > <number>` in NonBondEngine.add_positions "
-                              "(found %d)" % len(thresholds))
+        # the size of the last tree may be written in another way (`len(self.defined_idxs[-1]) > 5000`, a local
+        # name, ...): the threshold is the one integer constant on the right of a `>` in add_positions
+        thresholds = [node for node in _compare_constants(add, ast.Gt, lambda left: True)
+                      if isinstance(node.value, int)]
+    if len(thresholds) != 1:
+        raise TranslatorError("anchor not found: exactly one `<size of the last tree> > <integer>` in "
+                              "NonBondEngine.add_positions (found %d)" % len(thresholds))
     thr = _num_text(text, thresholds[0], "tree threshold")
     if Fraction(thr).denominator != 1 or Fraction(thr) < 0:
         raise TranslatorError("tree threshold is not a natural number: " + thr)
